@@ -154,9 +154,9 @@ impl<'a> G<'a> {
             // under Custom strategies only those free of '.' and '[' (a member called "$" is
             // addressed as "$.$", its child x as "$.$.x")
             if self.cfg.safe_names {
-                return (*self.r.pick(&[" ", "0", "$", "~", "$ref", "$id", "$$", "*", "-1"])).to_string();
+                return (*self.r.pick(&["", " ", "0", "$", "~", "$ref", "$id", "$$", "*", "-1", "{value}", "{name}", "{}", "%s", "1"])).to_string();
             }
-            return (*self.r.pick(&["", " ", "0", "$", "~", ".", "[0]", "a.b", "$.x", "$ref"])).to_string();
+            return (*self.r.pick(&["", " ", "0", "$", "~", ".", "[0]", "a.b", "$.x", "$ref", "{value}", "{name}", "{salt}", "{0}", "%s", "$1", "1"])).to_string();
         }
         if name && self.r.chance(3) {
             // names that only LOOK like reserved / registered ones (none of them is reserved)
@@ -212,6 +212,7 @@ impl<'a> G<'a> {
                     // JSON look-alikes and runs of spaces (interesting for the mock-salt spacing)
                     let frag = *self.r.pick(&[
                         "\":", ":[", ", ", ",", "\": ", "  ", "[1,2]", "{\"a\":1}", "\\\"", "\\u0041",
+                        "{value}", "{name}", "{salt}", "{}", "{0}", "%s", "%7E", "$1", "&amp;",
                         "\\", ":  ",
                     ]);
                     s.push_str(frag);
@@ -395,7 +396,27 @@ impl<'a> G<'a> {
         }
         self.prefix_sibling(&mut m);
         self.lookalike_sibling(&mut m);
+        self.child_named_like_parent(&mut m);
         Value::Object(m)
+    }
+
+    /// Occasionally give an object-valued member a child that carries the member's own name
+    /// ("profile": {"profile": ..}): a name is only meaningful at its own level.
+    fn child_named_like_parent(&mut self, m: &mut Map<String, Value>) {
+        if !self.r.chance(5) {
+            return;
+        }
+        let keys: Vec<String> = m.iter().filter(|(_, v)| v.is_object()).map(|(k, _)| k.clone()).collect();
+        if keys.is_empty() {
+            return;
+        }
+        let k = self.r.pick(&keys).clone();
+        let leaf = self.leaf();
+        if let Some(Value::Object(o)) = m.get_mut(&k) {
+            if !o.contains_key(&k) {
+                o.insert(k.clone(), leaf);
+            }
+        }
     }
 
     /// Occasionally add a sibling whose name (or value) equals an existing one under some
@@ -460,8 +481,9 @@ impl<'a> G<'a> {
         };
         let mut out = vec![];
         if self.budget > 0 && self.r.chance(4) {
-            // occasionally a long array of leaves: two-digit indices ([1] vs [10]..[13])
-            let long = 11 + self.r.below(4);
+            // occasionally a long array of leaves: two-digit indices ([1] vs [10]..[13]); in the
+            // Boundary profile also lengths around 2^8 (chunked / parallel processing boundaries)
+            let long = if self.cfg.profile == Profile::Boundary && self.r.chance(30) { *self.r.pick(&[255u64, 256, 257, 258, 259]) } else { 11 + self.r.below(4) };
             for _ in 0..long {
                 let v = self.leaf();
                 out.push(v);
@@ -566,6 +588,7 @@ pub fn gen_claims(r: &mut Rng, cfg: &GenCfg) -> Value {
     }
     g.prefix_sibling(&mut m);
     g.lookalike_sibling(&mut m);
+    g.child_named_like_parent(&mut m);
     Value::Object(m)
 }
 
